@@ -64,7 +64,8 @@ def rules(P, R, prefix="C07"):
             # Y6 (structural half): the helper's receive loop is left only when its channel closes
             wl0 = next((n for n in hr.nodes() if n["k"] in ("while", "loop")), None)
             if wl0 is not None:
-                exits = [x for x in ir.walk(wl0["body"], into_closures=False) if x["k"] in ("break", "ret")]
+                from ..common import exit_on_channel_close
+                exits = [x for x in ir.walk(wl0["body"], into_closures=False) if x["k"] in ("break", "ret") and not exit_on_channel_close(env, hr, wl0, x)]
                 R.judge(not exits, prefix + ".Y6", key(hr, "helper loop has no exit" + tag), wl0["sp"], "",
                         "the sync helper leaves its request loop at %s: after that no block request is ever answered" % [x["sp"] for x in exits])
             # the reply is sent for EVERY stored block that decodes: no extra condition (size caps, allow-lists ..)
